@@ -97,11 +97,14 @@ def handleCase (f : List String) : Except String Verdict := do
         | some p => pure p | none => throw "outside-domain: path"
       | _ => throw "outside-domain: req"
     if path.head? != some 47 || !(path.all literalByte) then throw "outside-domain: path"
-    if mode != "mw" && mode != "chain" then throw "outside-domain: mode"
+    if !["mw", "chain", "mw+custom", "chain+custom"].contains mode then throw "outside-domain: mode"
     let l := appList rootOwn nodes
     let keys := l.map (·.pre)
     if keys.eraseDups.length != keys.length then throw "outside-domain: two apps at the same appList key"
     let outs := outcomes.splitOn "|"
+    if outs.contains "panic" then
+      return { id := id, modelObs := "no-panic", implObs := outcomes,
+               spec := some "panic: the error funnel panicked", tags := [mode, "panic"] }
     let seen := outs.filterMap parseSeen
     if seen.length != outs.length then throw "outside-domain: unparsable outcome"
     let chain := (seen.head?).bind (·.chain)
